@@ -307,6 +307,11 @@ func buildRegistration(r *RNG, s *RegSpec) *RegBuilt {
 		case s.Format == "fido-u2f" && s.d("u2f.credNotEC2"):
 			cred = genKeyPair(r, pick(r, []int{algRS256, algEdDSA, algPS256}))
 			s.Algs = allAlgs
+		case s.d("certKey.sameXYOtherCurve"):
+			// the certificate key is a P-256 key; the credential key (below) carries its coordinates under ANOTHER curve and that curve's algorithm
+			cred = genKeyPairOnCurve(r, algES256, 1, false)
+			s.CredAlg = pick(r, []int{algES384, algES512})
+			s.Algs = allAlgs
 		case s.d("key.okpOversize") && s.Format != "tpm" && s.Format != "fido-u2f":
 			s.CredAlg = algEdDSA
 			cred = genKeyPair(r, algEdDSA)
@@ -378,6 +383,10 @@ func buildRegistration(r *RNG, s *RegSpec) *RegBuilt {
 			kvs = append(kvs, cborInt(3), cborInt(0))
 		}
 		key = cborMap(kvs...)
+	}
+	if s.d("certKey.sameXYOtherCurve") && cred.Kind == "ec" {
+		crv := map[int]int{algES384: 2, algES512: 3}[s.CredAlg]
+		key = cborMap(cborInt(1), cborInt(2), cborInt(3), cborInt(int64(s.CredAlg)), cborInt(-1), cborInt(int64(crv)), cborInt(-2), cborBytes(fixed(cred.EC.X, 32)), cborInt(-3), cborBytes(fixed(cred.EC.Y, 32)))
 	}
 	if s.d("key.okpOversize") && cred.Kind == "ed" {
 		// an Ed25519 key whose x member is longer than 32 bytes (the genuine key followed by more): not a key of that curve
@@ -655,6 +664,16 @@ func buildRegistration(r *RNG, s *RegSpec) *RegBuilt {
 		if s.d("ak.schemaNull.originAfterNull") {
 			// noAuthRequired (NULL) precedes origin = IMPORTED in the TEE list
 			kd = kdSpec{attVersion: 3, secLevel: 1, challenge: chal, teeNoAuth: true, hasOrigin: true, teeOrigin: 2, teePurpose: []int{2}, keySize: 256, nullStyle: "schema"}.DER()
+		}
+		if s.d("ak.schemaUnknownTag.originAfter") {
+			// a tag the struct does not have (KeyMint's earlyBootOnly [305], or a future one) precedes origin = IMPORTED; no NULL-typed member
+			// the struct knows is involved, and flags are written in encoding/asn1's own form
+			extra := pick(r, [][]byte{derExplicit(305, derNull()), derExplicit(305, derInt(1)), derExplicit(404, derInt(7)), derExplicit(599, derOctets([]byte("x")))})
+			kd = kdSpec{attVersion: 100, secLevel: 1, challenge: chal, hasOrigin: true, teeOrigin: 2, teePurpose: []int{2}, keySize: 256, nullStyle: "go", teeExtra: [][]byte{extra}}.DER()
+		}
+		if s.d("ak.schemaUnknownTag.allAppsAfter") {
+			extra := pick(r, [][]byte{derExplicit(305, derNull()), derExplicit(404, derInt(7))})
+			kd = kdSpec{attVersion: 100, secLevel: 1, challenge: chal, teeAll: true, hasOrigin: true, teeOrigin: 0, teePurpose: []int{2}, keySize: 256, nullStyle: "go", teeExtra: [][]byte{extra}}.DER()
 		}
 		if s.d("ak.schemaStyle.honest") {
 			// schema-conformant encoding of an honest description WITHOUT NULL-typed elements: must be accepted
